@@ -351,3 +351,43 @@ Theorem C18_check_then_act_refuted :
   fts2 s = [GDone; GDone] /\ blocked (base2 s) = true /\ inbox (base2 s) = [1] /\ ran (base2 s) = [0].
 Proof. exact check_then_act_refuted. Qed.
 Print Assumptions C18_check_then_act_refuted.
+
+(* ---- the same protocol with the drain loop at the granularity of the code (Queue/WakeupFine.v):
+   [while inbox: ready.append(inbox.popleft())] moves ONE handle per loop step, and foreign threads
+   may append and write to the self-pipe between any two of those steps. ---- *)
+From Asynkit Require Import Queue.WakeupFine Queue.WakeupFineProofs.
+
+Theorem C18_wakeup_invariant_itemwise_drain :
+  forall (n : nat) (start : lpc) (w : bool) (ts : list tok), WInv (wrun_f (winit n start w) ts).
+Proof. exact wake_inv_f. Qed.
+Print Assumptions C18_wakeup_invariant_itemwise_drain.
+
+Theorem C18_no_stranded_callback_itemwise_drain :
+  forall (n : nat) (start : lpc) (w : bool) (ts : list tok),
+    let s := wrun_f (winit n start w) ts in
+    all_done s = true -> blocked s = true ->
+    inbox s = [] /\ rdy s = [] /\ ran s = hist s /\ forall i, i < length (fts s) -> In i (ran s).
+Proof. exact blocked_means_collected_f. Qed.
+Print Assumptions C18_no_stranded_callback_itemwise_drain.
+
+Theorem C18_exactly_once_in_order_itemwise_drain :
+  forall (n : nat) (start : lpc) (w : bool) (ts : list tok),
+    let s := wrun_f (winit n start w) ts in
+    ran s ++ rdy s ++ inbox s = hist s /\ NoDup (ran s) /\ forall i, In i (ran s) -> started s i.
+Proof. exact exactly_once_fifo_f. Qed.
+Print Assumptions C18_exactly_once_in_order_itemwise_drain.
+
+(* an uninterrupted item-wise drain of m handles (m+1 loop steps) is the atomic drain of Wakeup.v *)
+Theorem C18_itemwise_drain_refines_atomic :
+  forall (m : nat) (s : wst), lp s = LDrain -> length (inbox s) = m ->
+    wrun_f s (loop_alone (m + 1)) = step_loop s.
+Proof. exact drain_f_is_atomic. Qed.
+Print Assumptions C18_itemwise_drain_refines_atomic.
+
+(* liveness: after the last submission completed, at most |inbox| + 3 steps of the loop thread *)
+Theorem C18_all_run_itemwise_drain :
+  forall s : wst, WInv s -> all_done s = true ->
+    exists k, k <= length (inbox s) + 3 /\
+      forall i, i < length (fts s) -> In i (ran (wrun_f s (loop_alone k))).
+Proof. exact (@all_run_fine). Qed.
+Print Assumptions C18_all_run_itemwise_drain.
